@@ -1,9 +1,10 @@
 #!/usr/bin/env bash
-# verify_seed.sh <ID> <n>: confirm a seeded change in its scratch worktree /tmp/seed/<ID>:
+# verify_seed.sh <ID> <n>: confirm a seeded change in its scratch worktree $SEED_BASE/<ID> (default /tmp/seed;
+# rounds 2-4 used SEED_BASE=/tmp/seedN SEED_SUFFIX=-rN):
 #  applies, builds (all features), existing suite green with it, demo fails with it and passes without.
 # On success stores it as /verif/seeded/<ID>-<n>/ {patch.diff, demo.rs, meta.json, NOTES.md}
 set -u
-ID="$1"; N="$2"; WT=/tmp/seed/$ID; OUT=/tmp/seed/out/$ID
+ID="$1"; N="$2"; BASE="${SEED_BASE:-/tmp/seed}"; SUF="${SEED_SUFFIX:-}"; WT=$BASE/$ID; OUT=$BASE/out/$ID
 P=$OUT/change$N.diff; D=$OUT/demo$N.rs
 [ -f "$P" ] && [ -f "$D" ] || { echo "$ID-$N: missing deliverables"; exit 1; }
 cd "$WT" || exit 1
@@ -14,17 +15,17 @@ R="$ID-$N:"
 git apply --check "$P" || { echo "$R patch does not apply to HEAD"; exit 1; }
 # demo without the change: must pass
 cp "$D" tests/demo_seed.rs
-if cargo test --offline --all-features --test demo_seed >/tmp/seed/out/$ID/v$N-clean.log 2>&1; then CLEAN=pass; else CLEAN=fail; fi
+if cargo test --offline --all-features --test demo_seed >$OUT/v$N-clean.log 2>&1; then CLEAN=pass; else CLEAN=fail; fi
 git apply "$P"
-if cargo build --offline --all-features >/tmp/seed/out/$ID/v$N-build.log 2>&1; then BUILD=ok; else BUILD=fail; fi
-if cargo test --offline --all-features --test demo_seed >/tmp/seed/out/$ID/v$N-mut.log 2>&1; then MUT=pass; else MUT=fail; fi
+if cargo build --offline --all-features >$OUT/v$N-build.log 2>&1; then BUILD=ok; else BUILD=fail; fi
+if cargo test --offline --all-features --test demo_seed >$OUT/v$N-mut.log 2>&1; then MUT=pass; else MUT=fail; fi
 rm -f tests/demo_seed.rs; rmdir tests 2>/dev/null
-if cargo test --workspace --no-fail-fast --offline >/tmp/seed/out/$ID/v$N-suite.log 2>&1; then SUITE=green; else SUITE=red; fi
-NS=$(grep -E "^test result" /tmp/seed/out/$ID/v$N-suite.log | head -1)
+if cargo test --workspace --no-fail-fast --offline >$OUT/v$N-suite.log 2>&1; then SUITE=green; else SUITE=red; fi
+NS=$(grep -E "^test result" $OUT/v$N-suite.log | head -1)
 git checkout -q -- . ; git clean -fdq tests 2>/dev/null
 echo "$R build=$BUILD suite=$SUITE ($NS) demo_with_change=$MUT demo_without=$CLEAN"
 if [ "$BUILD" = ok ] && [ "$SUITE" = green ] && [ "$MUT" = fail ] && [ "$CLEAN" = pass ]; then
-  S=/verif/seeded/$ID-$N; mkdir -p "$S"
+  S=/verif/seeded/$ID$SUF-$N; mkdir -p "$S"
   cp "$P" "$S/patch.diff"; cp "$D" "$S/demo.rs"; cp "$OUT/NOTES.md" "$S/NOTES.md" 2>/dev/null
   echo "CONFIRMED" > "$S/.confirmed"
   echo "$R CONFIRMED -> $S"
